@@ -141,4 +141,35 @@ theorem decStr_int (c : Nat) : decStr false c 0 = nstr c := by
   have h2 : ¬ ((0 : Int) + ((nstr c).length : Int) ≤ 0) := by omega
   simp [hne]
 
+/-! ## ISO renderings -/
+
+def d2 (n : Nat) : Str := [48 + n / 10, 48 + n % 10]
+def d4 (n : Nat) : Str := [48 + n / 1000, 48 + n / 100 % 10, 48 + n / 10 % 10, 48 + n % 10]
+
+/-- `YYYY-MM-DD` -/
+def isoDateStr (d : Date) : Str := d4 d.y ++ 45 :: d2 d.m ++ 45 :: d2 d.d
+
+/-- `Thh`, `Thh:mm` or `Thh:mm:ss`: trailing zero parts are dropped -/
+def isoTimeStr (h m s : Nat) : Str :=
+  if m = 0 ∧ s = 0 then 84 :: d2 h
+  else if s = 0 then 84 :: d2 h ++ 58 :: d2 m
+  else 84 :: d2 h ++ 58 :: d2 m ++ 58 :: d2 s
+
+theorem valid_bounds (d : Date) (hv : d.valid = true) : d.y < 10000 ∧ d.m < 100 ∧ d.d < 100 := by
+  rw [valid_iff] at hv
+  obtain ⟨_, h2, _, h4, _, h6⟩ := hv
+  have : daysInMonth d.y d.m ≤ 31 := by
+    unfold daysInMonth; split <;> try split
+    all_goals omega
+  omega
+
+
+/-- `Timex.from_date(d).timex_value()` is `YYYY-MM-DD` for every valid date -/
+theorem format_fromDate (d : Date) (hv : d.valid = true) :
+    formatT (Timex.fromDate d) = .ok (isoDateStr d) := by
+  obtain ⟨hy, hm, hd⟩ := valid_bounds d hv
+  simp [formatT, formatFuel, Timex.fromDate, infer, isDate, isDateRange, isDuration, isTime, isDefinite, truthyO,
+    truthyS, formatDate, andChainNotNone, fixed4 d.y hy, fixed2 d.m hm, fixed2 d.d hd, isoDateStr, d2, d4,
+    bind, Except.bind, pure, Except.pure]
+
 end RTV.Timex
